@@ -1648,6 +1648,9 @@ func (c *c18Case) directedFeegranterLicensee() {
 	}
 	if c.do(c18Op{kind: "activate", t: c.nextT(), signer: y, creator: x}) == "ok" {
 		c.e.r.Stat("activate.by_sale_client_of_feegranter_licensee")
+		// "activated ... only by the licensed address itself" is false for this history (known finding
+		// C18-feegranter-licensee; the check reports it as KNOWN-FINDING)
+		c.hit("activated_by_licensee", fmt.Sprintf("sale-client-of-feegranter-licensee: governance set the light-node fee granter to address %d, which holds a pending licence; the sale for client %d wrote the grant %d->%d; a MsgRegisterLightNodeClient for %d signed by %d was accepted", x, y, x, y, x, y))
 	}
 	c.do(c18Op{kind: "activate", t: c.nextT(), signer: x, creator: x})
 }
